@@ -169,7 +169,11 @@ func (w *world) runBlock(o *hx.Out, k int, specs []*txSpec) bool {
 	if err != nil {
 		// the generator built an invalid block: harness problem, not a finding
 		o.Count("block:rejected")
-		o.Line(fmt.Sprintf("note block-rejected %d", b.Index), "bad-op-expected")
+		if os.Getenv("TOKENS_DEBUG") != "" {
+			for i, tx := range txs {
+				fmt.Fprintf(os.Stderr, "  tx %d %s sender=%d sys=%d net=%d notary=%v gas=%s dep=%v\n", i, tx.Hash().StringLE(), w.aid(tx.Sender()), tx.SystemFee, tx.NetworkFee, specs[i].notary, pre.gas[tx.Sender()], pre.deps[tx.Signers[len(tx.Signers)-1].Account])
+			}
+		}
 		panic(failNow{"block rejected: " + err.Error()})
 	}
 	post := w.dump()
@@ -240,6 +244,11 @@ func (w *world) runBlock(o *hx.Out, k int, specs []*txSpec) bool {
 			obs = strings.Join(parts, " ")
 			all = append(all, w.transfers(ra[0].Events, bad)...)
 			o.Count("tx:HALT")
+			if s.raw == nil && len(parts)-1 == len(s.calls) {
+				for j, c := range s.calls {
+					o.Count("res:" + c.label(w) + ":" + parts[j+1])
+				}
+			}
 		} else {
 			obs = "FAULT"
 			o.Count("tx:FAULT")
@@ -267,6 +276,7 @@ func (w *world) runBlock(o *hx.Out, k int, specs []*txSpec) bool {
 		all = append(all, w.transfers(aers[0].Events, bad)...)
 	}
 	o.Line("endblock", w.line(post))
+	w.coverage(o, pre, post, all)
 	w.oracle(o, k, idx, pre, post, all)
 	return true
 }
